@@ -143,7 +143,14 @@ def regen_sources(prop):
         return {}
     lock = _flock(COQ / ".build.lock")
     try:
-        res = tr.regenerate(str(REPO), str(COQ / "theories" / "Gen"), units)
+        gen = COQ / "theories" / "Gen"
+        res = tr.regenerate(str(REPO), str(gen), units)
+        # units of OTHER properties that this property's files may import (C02/C03 import C01's and C07's ties): a fresh
+        # checkout has no Gen directory, and build.sh only regenerates everything when the directory is absent - so make
+        # sure every unit exists (missing ones only; an existing file of another property is never rewritten here)
+        missing = [u for u in sorted(tr.UNITS) if u not in units and not (gen / f"{u}.v").exists()]
+        if missing:
+            tr.regenerate(str(REPO), str(gen), missing)
     finally:
         lock.close()
     return {u: {"source": tr.UNITS[u][1], "functions": [q for _, q, _ in tr.UNITS[u][2]], "problems": res[u]}
